@@ -197,24 +197,8 @@ Definition rename_column_sim_hyp (s : schema) (a : action) : bool :=
   | _ => false
   end.
 
-(* ---------- the MODIFY COLUMN re-declaration in its strongest form: all attributes at once ---------- *)
-(* everything a MySQL column definition carries: type text, NOT NULL, DEFAULT text, COMMENT, AUTO_INCREMENT, inline
-   PRIMARY KEY *)
-Definition restated_all (d : coldef) : string * bool * option string * option string * bool * bool :=
-  (cd_type d, cd_notnull d, cd_default d, cd_comment d, cd_auto d, cd_pk d).
-(* what the evolving schema holds for column [c] of table [t] (the column is [col] there) *)
-Definition declared_all (s : schema) (t : string) (col : column_def) : string * bool * option string * option string * bool * bool :=
-  (mysql_type_text (c_type col), negb (c_nullable col), option_map (mysql_default_text (c_type col)) (c_default col),
-   c_comment col, (is_auto_col s t (c_name col) && supports_auto_increment (c_type col))%bool, false).
-(* only ModifyColumnComment writes a COMMENT clause: the other three keep the comment only when there is none *)
-Definition modify_comment_ok (a : action) (col : column_def) : bool :=
-  match a with ModifyColumnComment _ _ _ => true | _ => is_none (c_comment col) end.
-(* the hypothesis of C04_modify_restates_all: outside the class C04-autoinc-lost-on-modify, outside the re-quoting
-   corner (modify_default_ok) and outside C04-comment-lost-on-modify *)
-Definition modify_all_hyp (s : schema) (a : action) (t c : string) (col : column_def) : bool :=
-  (negb (is_auto_col s t c) && modify_default_ok a col && modify_comment_ok a col)%bool.
-
-(* class C04-comment-lost-on-modify: a ModifyColumnType / Nullable / Default on a column that carries a comment *)
+(* class C04-comment-lost-on-modify (FIXED by N1; kept for the record and for coverage counts): a ModifyColumnType /
+   Nullable / Default on a column that carries a comment *)
 Definition p_comment_lost (s : schema) (a : action) : bool :=
   match a with
   | ModifyColumnType t c _ _ | ModifyColumnNullable t c _ _ | ModifyColumnDefault t c _ =>
